@@ -34,6 +34,9 @@ CONSTANT Mutant    \* "none" | "plusinpath" (server decodes '+' in path segments
                    \* | "truncateonerror" (an upload source that fails while it is copied: logged, the part and the request are completed)
                    \* | "shortreadeof" (keep-alive body wrapper: the first short read is taken for the end of the response body)
                    \* | "sharedbound" (the bound parameters of the untyped handler are one variable per operation, not per request)
+                   \* | "multipass" (client: placeholders substituted one after the other with ReplaceAll - substituted text is scanned again)
+                   \* | "stripkey" (security.APIKeyAuth removes the accepted key from the request before the parameters are bound)
+                   \* | "sharedcodecs" (client.New hands every Runtime the same Consumers / Producers maps)
 
 U == INSTANCE ClientURL WITH Variant <- "fixed"
 
@@ -98,6 +101,20 @@ CleanSegs(parts, acc) ==
 \* wire segments of a call: literals verbatim, placeholders replaced by the encoded value
 WireSegs(tmpl, vals) == [i \in 1..Len(tmpl) |-> IF tmpl[i].k = "lit" THEN tmpl[i].s ELSE Encode("path", vals[tmpl[i].n])]
 
+\* buildHTTP escapes the template too, so the placeholder {n} is spelled %7Bn%7D - exactly like the escaped VALUE "{n}".  All
+\* placeholders are substituted in ONE pass (strings.NewReplacer): a substituted value is never scanned again.  nb: name -> bytes;
+\* order: the sequence in which the path parameters happen to be visited (they are kept in a map).
+PhText(nb, n) == <<37, 55, 66>> \o nb[n] \o <<37, 55, 68>>
+RECURSIVE Rescan(_, _, _, _)
+Rescan(text, later, nb, vals) ==
+  IF later = <<>> THEN text
+  ELSE Rescan(U!ReplaceAll(text, PhText(nb, Head(later)), Encode("path", vals[Head(later)])), Tail(later), nb, vals)
+After(order, n) == LET i == CHOOSE j \in 1..Len(order) : order[j] = n IN SubSeq(order, i + 1, Len(order))
+WireSegsOrdered(tmpl, vals, nb, order) ==
+  [i \in 1..Len(tmpl) |->
+     IF tmpl[i].k = "lit" THEN tmpl[i].s
+     ELSE IF Mutant = "multipass" THEN Rescan(Encode("path", vals[tmpl[i].n]), After(order, tmpl[i].n), nb, vals)   \* the later passes see it
+     ELSE Encode("path", vals[tmpl[i].n])]
 \* a wire segment can only be matched by a placeholder if it contains no separator
 Matches(tmpl, segs) ==
   /\ Len(segs) = Len(tmpl)
@@ -116,6 +133,15 @@ NamesOf(tmpl) == {tmpl[i].n : i \in {j \in 1..Len(tmpl) : tmpl[j].k = "ph"}}
 PathAgrees(tmpl, vals) ==
   (\A n \in NamesOf(tmpl) : InScope("path", vals[n])) =>
      LET r == Routed(tmpl, vals) IN r.found /\ \A n \in NamesOf(tmpl) : r.params[n] = vals[n]
+
+\* what the server's route delivers for a call whose path was built that way
+RoutedOrdered(tmpl, vals, nb, order) ==
+  LET segs == CleanSegs(WireSegsOrdered(tmpl, vals, nb, order), <<>>) IN
+  IF Matches(tmpl, segs) THEN [found |-> TRUE, segs |-> [i \in 1..Len(tmpl) |-> IF tmpl[i].k = "ph" THEN Decode("path", segs[i]).v ELSE <<>>]]
+  ELSE [found |-> FALSE, segs |-> <<>>]
+SubstAgrees(tmpl, vals, nb, order) ==
+  LET r == RoutedOrdered(tmpl, vals, nb, order) IN
+  r.found /\ \A i \in 1..Len(tmpl) : tmpl[i].k = "ph" => r.segs[i] = vals[tmpl[i].n]
 
 ---------------------------------------------------------------------------
 (* request bodies that are strings: sent with one of the media types the   *)
@@ -182,6 +208,25 @@ UploadOutcome(src, sniffLen) ==
 UploadOutcomeOK(src, sniffLen) ==
   LET o == UploadOutcome(src, sniffLen) IN
   IF SourceFails(src) THEN ~o.sent ELSE o.sent /\ o.bytes = Remaining(src.content, src.off)
+
+---------------------------------------------------------------------------
+(* A secured operation whose apiKey is ALSO a declared parameter (same name *)
+(* and location).  Context.Authorize runs the registered authenticator     *)
+(* before the parameters are bound; security.APIKeyAuth reads the key      *)
+(* (Header.Get / URL.Query().Get) and leaves the request as it is, so the  *)
+(* parameter is bound like any other.  kvs = the header fields / query     *)
+(* pairs of the request.                                                   *)
+AfterAuthorize(kvs, key) == IF Mutant = "stripkey" THEN SelectSeq(kvs, LAMBDA e : e.k # key) ELSE kvs
+
+---------------------------------------------------------------------------
+(* Several Runtimes in one process.  client.New gives every Runtime codec  *)
+(* tables (Consumers, Producers) of its OWN; the application may customise *)
+(* one Runtime's tables by assignment.  tables: table id -> media ->       *)
+(* codec name; a Runtime's table id is its own number (faithful) or 0, the *)
+(* one package-level table (mutant "sharedcodecs").                        *)
+CodecTable(rt) == IF Mutant = "sharedcodecs" THEN 0 ELSE rt
+Customised(tables, rt, media, codec) == [tables EXCEPT ![CodecTable(rt)][media] = codec]      \* rt.Producers[media] = codec
+CodecOf(tables, rt, media) == tables[CodecTable(rt)][media]                                   \* r.Producers[cmt]
 
 ---------------------------------------------------------------------------
 (* formData parameters and the URL's query.  The query of the request URL  *)
